@@ -303,8 +303,30 @@ def apply_impl(fields, step):
         return TransformedMeshFields(fields, lambda mesh: PermutedMesh(mesh, point_permutation=pp, cell_permutations=cps))
     if k == "merge":
         others = [to_fc(lm) for lm in step[1]]
+        _LAST_OPERANDS[:] = list(zip(others, step[1]))
         return fm.merge(fields, *others, remove_duplicate_points=step[2])
     raise ValueError(k)
+
+
+_LAST_OPERANDS: list = []     # (object, logical mesh it was built from) of the further operands of the last merge
+
+
+def operands_damage(fields, before, step):
+    """the operands of a transformation are data sets of their own: none of them may have lost / changed a point, cell or
+    value because it took part (the first operand `fields` and, for merge, the further pieces) -> description or None"""
+    with warnings.catch_warnings():
+        warnings.simplefilter("ignore")
+        with np.errstate(all="ignore"):
+            try:
+                if units(from_fc(fields)) != units(before):
+                    return "first operand differs from what it was before the call"
+                if step[0] == "merge":
+                    for k, (obj, lm) in enumerate(_LAST_OPERANDS):
+                        if units(from_fc(obj)) != units(lm):
+                            return f"operand no. {k + 2} of merge differs from what it was before the call"
+            except Exception as e:  # noqa: BLE001
+                return f"operand unreadable after the call: {type(e).__name__}: {e}"[:200]
+    return None
 
 
 def run_impl_step(fields, step):
@@ -536,6 +558,12 @@ def check_case(ctx, case, tags=(), record=True):
             break
         # ---------------- search: implementation vs the property
         k = step[0]
+        opd = operands_damage(fields, before, step)
+        if opd:
+            ctx.violation(one, opd, "operands unchanged", cls=None,
+                          what=f"{k}: a data set handed to the transformation lost / changed points, cells or values")
+            problems += 1
+            tags.append("damaged-operand")
         damage = invalid(after)
         if damage:
             ctx.violation(one, damage, "a well-formed data set", cls=None, what=f"{k}: result is not a well-formed data set")
